@@ -349,6 +349,18 @@ func nearCases(c *Ctx, rng *Rand, nQuick, nThor int) []jcase {
 			cases = append(cases, jcase{&image{w, h, comps, P, fill(rng, class, w, h, comps, P, nr), class}, nr})
 		}
 	}
+	// deep samples at large NEAR: full-range noise at P = 14..16 with NEAR in the upper half of its range (the
+	// quantiser sees |x - pred| + NEAR up to 2^16 + 255 there; small images never get that far)
+	for i := 0; i < c.N(6, 40); i++ {
+		P := 16 - i%3
+		nm := nearMax(P)
+		nr := nm
+		if i >= 3 {
+			nr = rng.Range(nm/2, nm)
+		}
+		w, h := 128, 96
+		cases = append(cases, jcase{&image{w, h, 1, P, fill(rng, "noise", w, h, 1, P, nr), "noise"}, nr})
+	}
 	return cases
 }
 
